@@ -3,6 +3,7 @@ package common
 import (
 	"archive/tar"
 	"context"
+	"encoding/json"
 	"errors"
 	"fmt"
 	"path/filepath"
@@ -37,12 +38,15 @@ const (
 // DaemonLayer is one layer of the simulated image with its reference content.
 type DaemonLayer struct {
 	Built *Built
+	// Evil is a valid eStargz blob of the same tree whose file contents differ (every byte inverted):
+	// what a Byzantine registry may serve under the layer's digest; its TOC has another digest.
+	Evil *Built
 	Files map[string][]byte // regular files with content
 	Names []string
 }
 
 // GenImage builds n eStargz layers (outside the simulation: builds pin GOMAXPROCS).
-func GenImage(d Draw, seed uint64, n, cs int) ([]DaemonLayer, error) {
+func GenImage(d Draw, seed uint64, n, cs int, forcePrio ...bool) ([]DaemonLayer, error) {
 	var out []DaemonLayer
 	for i := 0; i < n; i++ {
 		spec := GenTar(d, seed+uint64(i)*7919, GenOpts{ChunkSize: cs, MaxEntries: 6})
@@ -67,11 +71,33 @@ func GenImage(d Draw, seed uint64, n, cs int) ([]DaemonLayer, error) {
 				prio = []string{p}
 			}
 		}
+		if len(forcePrio) > 0 && forcePrio[0] && len(prio) == 0 {
+			for _, p := range L.Names { // (a layer with a prefetch landmark wherever the tree allows one)
+				if m.ExplicitParents(p) {
+					prio = []string{p}
+					break
+				}
+			}
+		}
 		b, err := BuildBlob(tb, BuildCfg{ChunkSize: cs, Compression: d(2), Workers: 1, Prioritized: prio})
 		if err != nil {
 			return nil, err
 		}
 		L.Built = b
+		for k := range spec.Entries {
+			if e := &spec.Entries[k]; e.Type == tar.TypeReg && len(e.Data) > 0 {
+				inv := make([]byte, len(e.Data))
+				for x, c := range e.Data {
+					inv[x] = ^c
+				}
+				e.Data = inv
+			}
+		}
+		ev, err := BuildBlob(spec.Bytes(), BuildCfg{ChunkSize: cs, Compression: b.Cfg.Compression, Workers: 1, Prioritized: prio})
+		if err != nil {
+			return nil, err
+		}
+		L.Evil = ev
 		out = append(out, L)
 	}
 	return out, nil
@@ -92,6 +118,9 @@ type Daemon struct {
 	// FuseFailDen: mounting through the (simulated) kernel fails with probability 1/FuseFailDen.
 	FuseFailDen int
 	Quiet       bool
+	// ExtraNeighbours are further layer digests listed in the image (labels) that the registry does not
+	// serve as eStargz (their pre-resolution fails), as in an image that mixes layer formats.
+	ExtraNeighbours []string
 }
 
 // NewDaemon creates the filesystem under root (its own directory, next to the snapshotter's) and
@@ -143,12 +172,14 @@ func (d *Daemon) LayerIndex(dgst string) int {
 }
 
 // Labels are the snapshot labels containerd would pass for layer i. variant: "ok" (right TOC
-// digest), "wrong-toc" (another digest), "skip" (no TOC digest, skip-verify label), "none" (neither).
+// digest), "wrong-toc" (another digest), "skip" (no TOC digest, skip-verify label), "none" (neither),
+// "ok-skip" (right TOC digest and the skip-verify label).
 func (d *Daemon) Labels(i int, variant string) map[string]string {
 	var all []string
 	for _, L := range d.Layers {
 		all = append(all, L.Built.Digest.String())
 	}
+	all = append(all, d.ExtraNeighbours...)
 	l := map[string]string{LabelRef: DaemonRef, LabelDigest: d.Layers[i].Built.Digest.String(), LabelLayers: strings.Join(all, ",")}
 	switch variant {
 	case "ok":
@@ -159,6 +190,9 @@ func (d *Daemon) Labels(i int, variant string) map[string]string {
 			l[estargz.TOCJSONDigestAnnotation] = "sha256:" + strings.Repeat("ab", 32)
 		}
 	case "skip":
+		l[LabelSkipVerify] = "true"
+	case "ok-skip": // both: the digest is pinned, the skip-verify label (rpull --skip-content-verify) is only a fallback
+		l[estargz.TOCJSONDigestAnnotation] = d.Layers[i].Built.TOCDigest.String()
 		l[LabelSkipVerify] = "true"
 	}
 	return l
@@ -204,4 +238,24 @@ func (d *Daemon) ReadFile(mp, p string, max int) ([]byte, error) {
 		return nil, fmt.Errorf("read: %v", errno)
 	}
 	return b, nil
+}
+
+// Fetched reports the fetched size and the size of the layer served at mp, from its state file.
+func (d *Daemon) Fetched(mp string) (fetched, size int64, ok bool) {
+	rn, found := d.Kernel[mp]
+	if !found {
+		return 0, 0, false
+	}
+	st, errno := NewTree(rn).StateJSON()
+	if errno != 0 {
+		return 0, 0, false
+	}
+	var v struct {
+		Size        int64 `json:"size"`
+		FetchedSize int64 `json:"fetchedSize"`
+	}
+	if err := json.Unmarshal([]byte(st), &v); err != nil {
+		return 0, 0, false
+	}
+	return v.FetchedSize, v.Size, true
 }
